@@ -8,6 +8,7 @@ import (
 	"math"
 	"os"
 	"path/filepath"
+	"reflect"
 	"strings"
 	"time"
 
@@ -38,7 +39,16 @@ func reply(rng interface{ Intn(int) int }, n int) (text string, certs []ssh.Publ
 	var sb strings.Builder
 	for i := 0; i < n; i++ {
 		k := gen.Pool()[rng.Intn(len(gen.Pool()))]
-		c := gen.MakeCert(gen.CertSpec{Key: k, KeyID: fmt.Sprintf("kid-%d-%d", i, rng.Intn(1<<30)), ValidAfter: now - 10, ValidBefore: now + 100, Serial: uint64(rng.Intn(1 << 30))})
+		spec := gen.CertSpec{Key: k, KeyID: fmt.Sprintf("kid-%d-%d", i, rng.Intn(1<<30)), ValidAfter: now - 10, ValidBefore: now + 100, Serial: uint64(rng.Intn(1 << 30))}
+		switch rng.Intn(16) {
+		case 0: // a certificate of any size: a long key id ...
+			spec.KeyID += strings.Repeat("k", 50000+rng.Intn(150000))
+		case 1: // ... or very many principals
+			for p := 2000 + rng.Intn(6000); p > 0; p-- {
+				spec.Principals = append(spec.Principals, fmt.Sprintf("host-%d.example.com", p))
+			}
+		}
+		c := gen.MakeCert(spec)
 		line := strings.TrimSuffix(string(ssh.MarshalAuthorizedKey(c)), "\n")
 		comment := []string{"", "touch", "two words", "c" + fmt.Sprint(i), "ünï"}[rng.Intn(5)]
 		if comment != "" {
@@ -163,7 +173,7 @@ func signing(r *ev.Run) {
 				})
 			}
 		}
-		eps := list
+		eps := append([]string(nil), list...) // the configuration owns its endpoint list
 		if len(list) == 0 && !nilList {
 			eps = []string{}
 		} else if len(list) == 0 {
@@ -186,6 +196,11 @@ func signing(r *ev.Run) {
 		}
 		conf := crypki.SignerConfig{TLSClientKeyFile: clientKey, TLSClientCertFile: clientCert, TLSCACertFiles: []string{caPath}, CrypkiEndpoints: eps, CrypkiPort: uint(port), Retries: 1, PerTryTimeout: perTry}
 		r.Eval(1)
+		epsBefore := append([]string(nil), eps...)
+		if eps != nil && epsBefore == nil {
+			epsBefore = []string{}
+		}
+		builtTwice := false
 		var certs []ssh.PublicKey
 		var comments []string
 		var serr error
@@ -210,6 +225,11 @@ func signing(r *ev.Run) {
 				signer, cerr = crypki.NewSignerWithGensignConf(config.GensignConfig{SignerConfig: m})
 			} else {
 				signer, cerr = crypki.NewSigner(conf)
+				if cerr == nil && idx%4 == 1 {
+					// a configuration value is good for any number of signers: the one used is the second built from it
+					builtTwice = true
+					signer, cerr = crypki.NewSigner(conf)
+				}
 			}
 			if cerr != nil {
 				return
@@ -228,6 +248,14 @@ func signing(r *ev.Run) {
 			}
 		}
 		sig := fmt.Sprintf("n=%d:%s", len(list), strings.Join(kinds, ","))
+		if !reflect.DeepEqual(epsBefore, conf.CrypkiEndpoints) {
+			// not a violation by itself (the property speaks of which endpoints are contacted); what it does
+			// to a second signer built from the same value is judged by that signer's behaviour
+			r.Count("NewSigner modified the endpoint list of the configuration value it was handed", 1)
+		}
+		if builtTwice {
+			r.Count("signers built as the second one from the same configuration value", 1)
+		}
 		if cerr != nil {
 			// refusing the configuration is an error result; acceptable only when no endpoint is configured
 			if len(list) != 0 {
